@@ -87,6 +87,26 @@ PROPS["C06"] = {"engines": [{"engine": "crash", "shim": True}, {"engine": "seq",
                 "explanation": "On every crash image every file under cas/ is re-hashed and must equal the hash its path encodes (no empty, partial, in-place-written or stray file is ever visible); in every sequence, readers obtained before each overwrite/removal are drained afterwards and must stream the original bytes; cas/ files are re-hashed after every step."}
 PROPS["C12"]["engines"].append({"engine": "crash", "shim": True})
 
+SCHED_RULE = ("every listed small concurrent program is executed on the real store under a controlled scheduler (one OS thread runs at a time; scheduling points before every "
+              "index-lock acquisition, before every visible filesystem call - blob-level calls under cas/, renames/unlinks touching cas/ - and between API calls); all interleavings "
+              "of two-thread programs are enumerated without bound, three-thread and two-ops-per-thread programs up to the stated preemption bound, by depth-first search over the "
+              "scheduler's choices with divergence checking on every replayed prefix. states = distinct (program, set of final outcomes); transitions = scheduling steps executed.")
+
+
+def sched(explanation, extra=None, **kw):
+    d = {"engines": [{"engine": "sched", "shim": True}] + (extra or []), "rule": SCHED_RULE, "explanation": explanation}
+    d.update(kw)
+    return d
+
+
+PROPS["C04"] = sched("At every scheduling step of every explored interleaving, with all threads parked, every key visible in the index must resolve to an existing blob of the recorded size; at quiescence and after reopen every value must read back intact.")
+PROPS["C05"] = sched("Every read under every explored interleaving must succeed, and a brute-force search must find a real-time-respecting linearization (get/put one point, remove/remove_range two points) that explains all results and the final contents; readers are drained after further steps.")
+PROPS["C15"] = sched("A reachable scheduling state with unfinished threads and no enabled thread (all pending lock acquisitions blocked) is a deadlock; a running thread that reaches no scheduling point for 20 s is a hang. All pairs of API calls incl. explicit and rollover checkpoints and clean-up, unbounded; triples bounded.")
+PROPS["C13"]["engines"].append({"engine": "sched", "shim": True})
+PROPS["C07"]["engines"].append({"engine": "sched", "shim": True})
+PROPS["C06"]["engines"].append({"engine": "sched", "shim": True})
+PROPS["C08"]["engines"].append({"engine": "sched", "shim": True})
+
 ENGINES = [
     {"name": "seq", "path": "harness/src/seq.rs", "serves_properties": ["C01", "C02", "C07", "C12", "C13"],
      "kind_free_text": "bounded-exhaustive operation-sequence enumeration on the real store vs BTreeMap model + independent on-disk decoders"},
@@ -98,10 +118,12 @@ ENGINES = [
      "kind_free_text": "every truncation offset / single-byte change of the un-checkpointed WAL tail of bounded-history stores, opened with the real Cas::open"},
     {"name": "plant", "path": "harness/src/plant.rs", "serves_properties": ["C08"],
      "kind_free_text": "exhaustive small subsets of planted garbage/corruption in every bounded-history store: scan classification and clean-up exactness"},
+    {"name": "sched", "path": "harness/src/sched.rs + conc.rs", "serves_properties": ["C04", "C05", "C15", "C06", "C07", "C08", "C13"],
+     "kind_free_text": "CHESS-style controlled scheduler over the real parking_lot locks and real files (repo hooks + LD_PRELOAD shim), preemption-bounded exhaustive DFS, linearizability by brute force"},
     {"name": "crash", "path": "harness/src/crash.rs", "serves_properties": ["C03", "C06", "C08", "C12", "C20"],
      "kind_free_text": "every syscall boundary of every bounded history: live-directory crash images via LD_PRELOAD shim, recovered and checked, nested in recovery"},
 ]
 
 # properties not (yet) claimed; kept current as engines land
 NOT_APPLICABLE = {p: "engine not built yet in this round (planned, see DESIGN.md §3)" for p in
-                  ["C04", "C05", "C09", "C11", "C15", "C19"]}
+                  ["C09", "C11", "C19"]}
